@@ -211,3 +211,40 @@ def viscous_signs(env, k_lam, re_mono=True):
         return
     d_tc = env.jac_of(np.array([cdv], dtype=object), ins["t_over_c"])
     env.sign_on_box("C18", "viscous drag increases with the thickness ratio on the admissible box [k_lam = %s]" % k_lam, d_tc.reshape(-1), box, sign=1, max_boxes=20000)
+
+
+@job("c18.sref_rows", ("C18", "C06", "C17"), cfgs=[dict(kind="projected", symmetry=True), dict(kind="projected", symmetry=False), dict(kind="wetted", symmetry=True)], cost=1)
+def sref_rows(env, kind, symmetry):
+    """the reference area the drag coefficients are divided by is the area of the whole planform, whatever the number of chordwise
+    panels: refining a flat wing chordwise (2, 3 and 5 rows of nodes on the same leading and trailing edge) leaves S_ref
+    unchanged, and S_ref equals the shoelace area of the outline (doubled for a symmetric half).  BOUNDED stand-in: the real
+    component evaluated in floating point on 20 sampled planforms (the symbolic form is a sum of square roots of squares, which
+    the normaliser does not decide); 1e-12 relative."""
+    if not env.sym:
+        return
+    import random as _random
+    from .. import sx
+    rnd = _random.Random(env.seed + 5)
+    ny = 4
+    worst = {}
+    for nx in (2, 3, 5):
+        s = surface(name="wing", nx=nx, ny=ny, symmetry=symmetry, extra=dict(S_ref_type=kind))
+        c = sx.CompSX(cls("aerodynamics.geometry.VLMGeometry")(surface=s))
+        env.functions.add("openaerostruct.aerodynamics.geometry.VLMGeometry.compute")
+        rnd2 = _random.Random(env.seed + 5)
+        w = 0.0
+        for t in range(20):
+            ys = sorted(rnd2.uniform(-3, 0) for _ in range(ny - 1)) + [0.0] if symmetry else sorted(rnd2.uniform(-3, 3) for _ in range(ny))
+            x_le = [rnd2.uniform(-0.5, 0.5) for _ in range(ny)]
+            ch = [rnd2.uniform(0.5, 1.5) for _ in range(ny)]
+            m = np.zeros((nx, ny, 3))
+            for i in range(nx):
+                for j in range(ny):
+                    m[i, j] = (x_le[j] + ch[j] * i / (nx - 1.0), ys[j], 0.0)
+            area = sum(0.5 * (ch[j] + ch[j + 1]) * (ys[j + 1] - ys[j]) for j in range(ny - 1)) * (2 if symmetry else 1)
+            got = float(np.asarray(c.native_compute(dict(def_mesh=m))["S_ref"]).reshape(-1)[0])
+            w = max(w, abs(got - area) / area)
+        worst[nx] = w
+        env.holds("C18,C06,C17", "[bounded: 20 sampled flat planforms] S_ref (%s) with %d chordwise rows of nodes == area of the planform outline" % (kind, nx),
+                  w <= 1e-12, "largest relative deviation %.3g" % w)
+    env.assumptions.add("c18.sref_rows is a bounded numerical check (labelled bounded; not counted as proved)")
